@@ -344,6 +344,26 @@ func RunC20(c *mc.Ctx) {
 		cfg := &GCSConfig{Progs: [][]string{gp[p.a], gp[p.b]}}
 		exploreCase(c, w, c20Case{Kind: "gcs", GCS: cfg, Bound: mc.Pick(c, 1, 2)}, 300000)
 	})
+	// two filters, one goroutine each, with and without an earlier query on a malformed filter
+	{
+		t1 := programs(GCSTwoOps, 1)
+		var tw []*GCSConfig
+		for _, poison := range []bool{false, true} {
+			for i := range t1 {
+				for j := range t1 {
+					tw = append(tw, &GCSConfig{Two: true, Poison: poison, Progs: [][]string{t1[i], t1[j]}})
+				}
+			}
+			tw = append(tw, &GCSConfig{Two: true, Poison: poison, Progs: [][]string{{"Match:own", "HashMatchAny:own"}, {"ZipMatchAny:own", "Match:own"}}})
+		}
+		if onlyBig {
+			tw = nil
+		}
+		c.Space("gcs: two filters of equal size, one goroutine each, with and without an earlier query on a malformed filter", int64(len(tw)))
+		c.ParFor(int64(len(tw)), func(w *mc.W, i int64) {
+			exploreCase(c, w, c20Case{Kind: "gcs", GCS: tw[i], Bound: 1}, 300000)
+		})
+	}
 	if c.Thorough() {
 		g3 := [][]string{{"Match:a"}, {"HashMatchAny"}, {"ZipMatchAny"}, {"NBytes"}}
 		var gt []triple
